@@ -38,6 +38,8 @@ T = {
          "Trusted: TLC, controlled scheduler, loopback connect behaviour; /proc/self/fd and slot audit events for the census.", "TLA+ observable spec (DialObs) + TLC trace validation of controlled and free-running dials"),
  'C18': (MC, 'pm-sched', "The implementation-shaped PollManager.tla (status word, two-step Run, round-robin counter, phases) is model-checked exhaustively; TLC-simulated schedules, the counterexample of the modelled deviation, random/PCT schedules (controlled scheduler on a private manager with real pollers) and free-running racing first Picks (spin barrier, real threads) are executed; each execution is validated against PollManagerObs.tla (picked poller running, exactly the configured number of loops after each phase, round-robin evenness, no panic) and, step by step, against PollManager.tla.",
          "Trusted: TLC, controlled scheduler, loop start/exit trace points. Exhaustive for 3 pickers x 2 picks x sizes 2,1,3.", "impl-shaped TLA+ spec model-checked by TLC; TLC-generated schedules replayed on the code; trace validation against observable and impl-shaped specs"),
+ 'C19': (EX, 'race-explore', "A specification cannot decide this property (a data race is below the grain of any spec action); the specs contribute the space of in-contract concurrent programs: TLC enumerates RaceScenarios.tla (who closes / reads / flushes / installs handlers, callback configuration), and every scenario plus the free-running drivers of C04/C15/C17/C18 runs without controlled scheduler or hooks under Go's race detector; a report counts when both racing accesses are in netpoll's own non-test code outside nocopy_linkbuffer*.go.",
+         "The race detector is the oracle: it only sees accesses that actually overlap in a run. Harness-side accesses are excluded by the attribution rule.", "TLC-enumerated scenario space executed under the Go race detector (exploration; the spec does not decide the property)"),
 }
 for k in ('C02', 'C03'):
     T[k] = T['C01']
@@ -62,6 +64,7 @@ engines = [
  {'name': 'adapters-replay', 'path': 'lib/adapt.py', 'serves_properties': ['C16'], 'kind_free_text': 'TLC -simulate behaviours of spec/Adapters.tla replayed with scripted io doubles'},
  {'name': 'server-sched', 'path': 'lib/server.py', 'serves_properties': ['C13'], 'kind_free_text': 'server scenarios under the controlled scheduler judged by spec/ServerObs.tla'},
  {'name': 'dial-sched', 'path': 'lib/dial.py', 'serves_properties': ['C14'], 'kind_free_text': 'dial scenarios (controlled + free-running) judged by spec/DialObs.tla'},
+ {'name': 'race-explore', 'path': 'lib/race.py', 'serves_properties': ['C19'], 'kind_free_text': 'RaceScenarios.tla enumerated by TLC; free-running scenarios in a -race build'},
  {'name': 'pm-sched', 'path': 'lib/pm.py', 'serves_properties': ['C18'], 'kind_free_text': 'spec/PollManager.tla model-checked; schedules replayed on a private manager under the controlled scheduler; free-running racing Picks'},
  {'name': 'shardq-sched', 'path': 'lib/shardq.py', 'serves_properties': ['C17'], 'kind_free_text': 'spec/ShardQueue.tla model-checked; schedules replayed under the mux controlled scheduler'},
 ]
